@@ -39,8 +39,11 @@ THEOREMS = [
 ASSUMPTIONS = [
     "CPython's hash of tuples/strings/frozensets and pickle are executed, not modelled "
     "(hashStruct is an arbitrary mixing function of the tabled fields)",
-    "scalar field values are compared through a canonical string (harness/eqterm.canon): numbers of "
-    "different Python types (1 vs 1.0) are different strings; the generators never produce such pairs",
+    "scalar field values are compared through a canonical string (harness/eqterm.canon) that records TYPE AND BITS: for the "
+    "specification SemEq the constants 0, 0.0, -0.0, False (1 / 1.0 / True, 2.5 / np.float32(2.5) / np.float64(2.5)) are "
+    "different attributes, whereas the real `==` compares constants with Python's == and identifies them; the random DAG "
+    "generators never produce such pairs, the `constants-python-identifies` batch does: identified graphs must hash alike "
+    "and evaluate identically incl. dtype and sign of zero (signed zeros do not: known finding), C18 checks their keys",
     "DataWrapper compares by object identity (documented in its docstring); the model gives it the "
     "attribute `#id` = object number, so an unpickled or re-created wrapper is a different leaf",
     "loopy translation units are opaque: identified by loopy's own persistent key",
